@@ -1458,6 +1458,22 @@ def tlvsPack : List Tlv → R Bytes
     let b ← tlvsPack r
     pure (a ++ b)
 
+/-- mpls.py:88-96 `hdr`: every field is masked to its width, so this never raises -/
+def mplsHdrX (h : Mpls) : R Bytes :=
+  let label := h.label % 1048576
+  pk [.uint 2, .uint 1, .uint 1] [.num (label / 16), .num ((label % 16) * 16 + (h.tc % 8) * 2 + h.s % 2), .num (h.ttl % 256)]
+
+/-- eapol.py:103-104 `hdr`: `struct.pack('!BBH', version, type, bodylen)` -/
+def eapolHdrX (h : Eapol) : R Bytes := pk [.uint 1, .uint 1, .uint 2] [.num h.version, .num h.type, .num h.bodylen]
+
+/-- eap.py:188-189 `hdr`: `struct.pack('!BBH', code, id, length)` (the type octet and type data are the payload, D49) -/
+def eapHdrX (h : Eap) : R Bytes := pk [.uint 1, .uint 1, .uint 2] [.num h.code, .num h.id, .num h.length]
+
+/-- the phase-2 classes whose `hdr()` is in the pack model -/
+def Ext.packs : Ext → Bool
+  | .mpls _ | .eapol _ | .eap _ => true
+  | _ => false
+
 /-- `pack()` of a chain.  An object whose parse gave up returns its `raw`; a foreign layer is outside the model. -/
 def packF : Option IPCtx → Frame → R Bytes
   | _, .raw b => pure b
@@ -1511,7 +1527,20 @@ def packF : Option IPCtx → Frame → R Bytes
     let hd ← timeExHdr h
     pure (hd ++ rest)
   | _, .lldp ts parsed r => if parsed then tlvsPack ts else pure r
-  | _, .ext x _ _ => .error (.unmodelled x.cls)          -- pack() of the phase-2 classes is not modelled
+  -- phase-2 classes whose `hdr()` is modelled (`packet_base.pack`: `hdr(payload) + payload`)
+  | _, .ext (.mpls h) _ n => do
+    let rest ← packF none n
+    let hd ← mplsHdrX h
+    pure (hd ++ rest)
+  | _, .ext (.eapol h) _ n => do
+    let rest ← packF none n
+    let hd ← eapolHdrX h
+    pure (hd ++ rest)
+  | _, .ext (.eap h) _ n => do
+    let rest ← packF none n
+    let hd ← eapHdrX h
+    pure (hd ++ rest)
+  | _, .ext x _ _ => .error (.unmodelled x.cls)          -- pack() of the other phase-2 classes is not modelled
 
 /-! ## `str()` / `dump()` of a parse result (packet_base.py:97-133 and each class's `__str__` / `_to_str`)
 
@@ -1584,6 +1613,14 @@ def Frame.hasForeign : Frame → Bool
   | .eth _ _ n | .vlan _ _ n | .llc _ _ _ n | .arp _ _ n | .ipv4 _ _ n | .udp _ _ n | .tcp _ _ n | .icmp _ _ n
   | .echo _ _ n | .unreach _ _ n | .timeEx _ _ n => n.hasForeign
   | _ => false
+
+/-- is `pack()` of the chain inside the model?  The phase-1 classes anywhere, and mpls / eapol / eap where they occur: directly
+behind ethernet / 802.1Q / LLC-SNAP headers -/
+def Frame.packModelled : Frame → Bool
+  | .eth _ _ n | .vlan _ _ n | .llc _ _ _ n => n.packModelled
+  | .ext x _ n => x.packs && n.packModelled
+  | .foreign _ _ => false
+  | f => !f.hasForeign
 
 /-- the bytes the object was constructed from (`self.raw`); `[]` for `next is None` -/
 def Frame.bytes : Frame → Bytes
